@@ -339,7 +339,10 @@ def wrap(cls, inner, *args, **kw):
 
 
 def frozen(inner, fz):
-    return dict(cls='FrozenParameterGate', inner=inner, args=[], kw={}, frozen=[[k, v] for k, v in sorted(fz.items())])
+    """fz: dict or list of (index, value) pairs; the INSERTION ORDER is kept (it is what the
+    constructor receives and must not matter)."""
+    items = list(fz.items()) if isinstance(fz, dict) else list(fz)
+    return dict(cls='FrozenParameterGate', inner=inner, args=[], kw={}, frozen=[[k, v] for k, v in items])
 
 
 def composed_grid(ctx):
@@ -396,7 +399,20 @@ def composed_grid(ctx):
         if len(subsets) > 8:
             subsets = rng.sample(subsets, min(len(subsets), ctx.n(8, 40)))
         for sub in subsets:
-            ds.append(frozen(inn, {k: rng.choice(vals) for k in sub}))
+            order = list(sub)
+            rng.shuffle(order)
+            ds.append(frozen(inn, [(k, rng.choice(vals)) for k in order]))
+    # every insertion order of 2- and 3-entry frozen dicts (ascending, descending, mixed)
+    perm_cases = [(D('U3Gate'), [(0, 1), (0, 2), (1, 2), (0, 1, 2)]), (D('CUGate'), [(0, 3), (1, 2), (0, 2, 3), (1, 2, 3)]),
+                  (D('U8Gate'), [(0, 2), (3, 5), (1, 4, 6), (0, 3, 7)]), (D('FSIMGate'), [(0, 1)]),
+                  (D('PhasedXZGate'), [(0, 2), (0, 1, 2)]), (D('DiagonalGate', 2), [(0, 2), (0, 1, 2)])]
+    for inn, subs in perm_cases:
+        for sub in subs:
+            orders = list(itertools.permutations(sub))
+            if ctx.quick() and len(orders) > 4:
+                orders = [orders[0], orders[-1]] + rng.sample(orders[1:-1], 2)
+            for order in orders:
+                ds.append(frozen(inn, [(k, round(0.1 + 0.37 * k, 6)) for k in order]))
     # --- EmbeddedGate
     emb = [
         (D('U3Gate'), 3, None), (D('U3Gate'), 3, [0, 2]), (D('U3Gate'), 3, [2, 1]), (D('U3Gate'), 4, [3, 1]),
@@ -487,8 +503,8 @@ def random_composed(ctx, count):
                 elif kind == 'frozen':
                     if npar == 0:
                         continue
-                    sub = rng.sample(range(npar), rng.randint(1, npar))
-                    d = frozen(d, {k: rng.choice(vals) for k in sub})
+                    sub = rng.sample(range(npar), rng.randint(1, npar))     # random insertion order
+                    d = frozen(d, [(k, rng.choice(vals)) for k in sub])
                 else:
                     big = [r + rng.choice([0, 1, 1, 2]) for r in rx]
                     if int(np.prod(big)) > 36:
@@ -570,6 +586,9 @@ class Checker:
         ic = input_class(sd)
         if ic:
             sig['input'] = ic
+        if sd['cls'] == 'FrozenParameterGate' and len(sd.get('frozen', [])) > 1:
+            ks = [int(k_) for k_, _ in sd['frozen']]
+            sig['order'] = 'ascending' if ks == sorted(ks) else 'non_ascending'
         case = {'desc': d, 'params': None if p is None else [float(x) for x in p], 'clause': clause}
         if extra:
             case.update(extra)
@@ -746,11 +765,12 @@ class Checker:
         for k, p in enumerate(P[:4]):
             try:
                 if cls == 'FrozenParameterGate':
-                    full = list(p)
-                    for idx in sorted(g.frozen_params):
-                        full.insert(idx, g.frozen_params[idx])
+                    # substitution by index: frozen value at its own index, free values in order elsewhere
+                    fz = {int(k_): v_ for k_, v_ in d['frozen']}
+                    free = iter(p)
+                    full = [fz[i] if i in fz else next(free) for i in range(inner.num_params)]
                     exp = np.asarray(inner.get_unitary(full))
-                    eg = np.asarray(inner.get_grad(full))[[i for i in range(inner.num_params) if i not in g.frozen_params]] \
+                    eg = np.asarray(inner.get_grad(full))[[i for i in range(inner.num_params) if i not in fz]] \
                         if inner.num_params else None
                 else:
                     V = np.asarray(inner.get_unitary(p))
@@ -1007,7 +1027,6 @@ def check_equivalent_args(ck: Checker):
         (wrap('ControlledGate', D('U3Gate')), wrap('ControlledGate', D('U3Gate'), 1, 2, [[1]])),
         (wrap('ControlledGate', D('U3Gate'), 2, 3), wrap('ControlledGate', D('U3Gate'), 2, [3, 3], [2, 2])),
         (wrap('EmbeddedGate', D('XGate'), 3), wrap('EmbeddedGate', D('XGate'), [3], [[0, 1]])),
-        (frozen(D('U3Gate'), {0: 1.0, 2: 2.0}), frozen(D('U3Gate'), {2: 2.0, 0: 1.0})),
     ]
     for a, b in pairs:
         try:
@@ -1028,6 +1047,65 @@ def check_equivalent_args(ck: Checker):
                              dict(desc=a, other=b, clause='eq_equivalent_args'), 'equal gates, equal hashes',
                              dict(eq=bool(ga == gb), hash_eq=hash(ga) == hash(gb)),
                              'the same constructor call written with default / keyword arguments gives unequal gates')
+
+
+def check_frozen_orders(ck: Checker):
+    """the same frozen map given in every dict insertion order: the gates must be equal, hash equally,
+    and have the same unitary and gradient - namely the substitution by index into the inner gate."""
+    ctx = ck.ctx
+    g = G()
+    rng = ck.nprng
+    cases = [('U3Gate', (0, 1)), ('U3Gate', (0, 2)), ('U3Gate', (0, 1, 2)), ('CUGate', (1, 3)), ('CUGate', (0, 2, 3)),
+             ('U8Gate', (2, 5)), ('U8Gate', (1, 4, 6)), ('FSIMGate', (0, 1)), ('U2Gate', (0, 1))]
+    for name, keys in cases:
+        inner = getattr(g, name)()
+        n = inner.num_params
+        vals = {k: float(rng.uniform(-2, 2)) for k in keys}
+        free = rng.uniform(-PI, PI, n - len(keys))
+        it = iter(free)
+        full = [vals[i] if i in vals else next(it) for i in range(n)]
+        refU = np.asarray(inner.get_unitary(full))
+        refG = np.asarray(inner.get_grad(full))[[i for i in range(n) if i not in vals]]
+        first = None
+        for order in itertools.permutations(keys):
+            d = frozen(D(name), [(k, vals[k]) for k in order])
+            ctx.count('frozen_orders')
+            ctx.case(('frozen_order', name, order))
+            try:
+                fg = build(d)
+                U = np.asarray(fg.get_unitary(free))
+                Gr = np.asarray(fg.get_grad(free)) if len(free) else np.zeros((0,) + U.shape)
+            except CATCH as e:  # noqa
+                ck.bad(d, 'exception', free, 'no exception', f'{type(e).__name__}: {e}', 'frozen gate raises')
+                continue
+            if not (np.abs(U - refU).max() <= 1e-12 and (len(free) == 0 or np.abs(Gr - refG).max() <= 1e-11)):
+                ck.bad(d, 'composed', free, 'inner gate at the parameters substituted by index',
+                       float(np.abs(U - refU).max()),
+                       'FrozenParameterGate is not the substitution by index of its frozen values '
+                       '(depends on the insertion order of the frozen dict)', dict(full_by_index=[float(x) for x in full]))
+                continue
+            if first is None:
+                first = (d, fg)
+                continue
+            d0, f0 = first
+            eq = bool(fg == f0 and f0 == fg)
+            if not eq:
+                ck.bad(d, 'eq_hash', None, 'equal to the gate built from the same map in another order', 'unequal',
+                       'frozen gates with the same frozen map compare unequal', dict(other=d0))
+            elif hash(fg) != hash(f0):
+                ctx.count('fail_hash_insertion_order')
+                ctx.violation({'gate': 'FrozenParameterGate', 'clause': 'hash_insertion_order'},
+                              dict(desc=d, other=d0, clause='hash_insertion_order'), 'equal gates => equal hashes',
+                              dict(eq=True, hash_eq=False),
+                              'equal FrozenParameterGates (same frozen map, different dict insertion order) hash differently')
+    # TaggedGate with a dict tag has the same __hash__ construction
+    t1, t2 = g.TaggedGate(g.XGate(), {'a': 1, 'b': 2}), g.TaggedGate(g.XGate(), {'b': 2, 'a': 1})
+    ctx.count('frozen_orders')
+    if t1 == t2 and hash(t1) != hash(t2):
+        ctx.violation({'gate': 'TaggedGate', 'clause': 'hash_insertion_order'},
+                      dict(desc=wrap('TaggedGate', D('XGate'), {'a': 1, 'b': 2}), other=wrap('TaggedGate', D('XGate'), {'b': 2, 'a': 1}),
+                           clause='hash_insertion_order'), 'equal gates => equal hashes', dict(eq=True, hash_eq=False),
+                      'equal TaggedGates (same dict tag, different insertion order) hash differently')
 
 
 # ----------------------------------------------------------------------------------------
@@ -1201,6 +1279,7 @@ def run(ctx: vf.Ctx):
     check_qiskit(ck)
     check_distinct(ck)
     check_equivalent_args(ck)
+    check_frozen_orders(ck)
     check_cached_class(ck)
     # catalogue: every exported name is either checked, or listed with the reason
     exp = exported_classes()
@@ -1246,3 +1325,5 @@ def replay(ctx: vf.Ctx, data):
         check_distinct(ck)
     if case.get('clause') == 'eq_equivalent_args':
         check_equivalent_args(ck)
+    if case.get('clause') == 'hash_insertion_order' or (case.get('desc') or {}).get('cls') == 'FrozenParameterGate':
+        check_frozen_orders(ck)
